@@ -256,9 +256,38 @@ func runEval(hdr Header, c any, src string) CaseResult {
 			}
 		}
 	}
+	// a decorated schema (C18: "for every instance"): instances that no JSON decoding produces - byte slices, typed
+	// containers, named strings, json.Number - get the same verdict from the decorated and the undecorated schema
+	if base, ok := cm["base"]; ok && len(res.Failures) == 0 {
+		ub := &universe{remote: u.remote, faults: u.faults, baseURI: u.baseURI, docURIs: u.docURIs, rootJSON: abs.SchemaJSON(base)}
+		if rsb, berr, _ := ub.resolve(&loadLog{}); berr == nil {
+			for _, gi := range goShapedInstances() {
+				res.Evals += 2
+				vd, vb := rs.Validate(gi) == nil, rsb.Validate(gi) == nil
+				if vd != vb {
+					res.Failures = append(res.Failures, Failure{Kind: "verdict-decoration", Source: src, Abstract: c,
+						Concrete: map[string]any{"schema": u.concrete(), "undecorated": json.RawMessage(ub.rootJSON), "instance": fmt.Sprintf("%#v", gi)},
+						Expected: map[string]any{"valid (undecorated schema)": vb}, Got: map[string]any{"valid (decorated schema)": vd}})
+					break
+				}
+			}
+		}
+	}
 	res.Nontrivial = sawT && sawF
 	res.Sample = map[string]any{"schema": u.concrete(), "verdicts": sampleInst}
 	return res
+}
+
+type namedText string
+
+func goShapedInstances() []any {
+	one := 1
+	return []any{
+		[]byte("hello"), []byte{1, 2, 3}, []byte{}, []byte{1, 1}, map[string]any{"a": []byte("a")}, map[string]any{"b": []byte{1}},
+		map[string][]byte{"a": {1}}, [][]byte{{1}, {1}}, []any{[]byte("a"), "a"}, []any{[]byte{1}}, &[]byte{1, 2},
+		json.Number("1"), []string{"a", "ab"}, [2]int{1, 1}, namedText("a"), namedText("ab"), float32(1), uint8(1), &one,
+		map[string]int{"a": 1}, map[namedText]any{"a": "a"}, []namedText{"a", "b"}, map[string]any{"a": json.Number("1.0")},
+	}
 }
 
 // checkLoads compares the Loader call log with the specification: no URI is
